@@ -283,8 +283,8 @@ def oracle_c01(script, c_lines):
             if 0 <= k < len(evs):
                 if len(evs) != k + 1:
                     return pre + "%d visits made although visit %d returned non-zero" % (len(evs), k)
-                if r != 7:
-                    return pre + "returned %d, the stopping visit returned 7" % r
+                if r != (-3 if k % 2 else 7):
+                    return pre + "returned %d, the stopping visit returned %d" % (r, -3 if k % 2 else 7)
                 e = check_events(evs, h, w[2] == "fwd", False, _nonleaf(prev.get(w[0])))
             else:
                 if r != 0:
